@@ -98,7 +98,7 @@ func extras(t *rapid.T, n int, label string) []float64 {
 }
 
 func genCase(t *rapid.T) Case {
-	class := rapid.SampledFrom([]string{"near", "near", "near", "near-shared-exp", "near-small-int-dir", "shared", "axis", "random", "random-shared-exp", "grid-big"}).Draw(t, "class")
+	class := rapid.SampledFrom([]string{"near", "near", "near", "near-shared-exp", "near-small-int-dir", "shared", "axis", "random", "random-shared-exp", "grid-big", "filter-edge", "filter-edge"}).Draw(t, "class")
 	var a, b, c [2]float64
 	shared := 9999
 	if class == "near-shared-exp" || class == "random-shared-exp" {
@@ -160,6 +160,38 @@ func genCase(t *rapid.T) Case {
 		a = [2]float64{mag(t, "ax", shared), mag(t, "ay", shared)}
 		b = [2]float64{mag(t, "bx", shared), mag(t, "by", shared)}
 		c = [2]float64{mag(t, "cx", shared), mag(t, "cy", shared)}
+	case "filter-edge":
+		// aimed at the filter's own error bound: two points about 2^52 from the third, in
+		// nearly the same direction, with odd integer ordinates, and the third with
+		// ordinates next to +-1/2 - every difference a-c, b-c then rounds by (almost) half
+		// an ulp, in a direction chosen by the sign of a tiny offset, and the determinant
+		// is of the order of 2^-52 of the products it is the difference of. A bound that
+		// forgets the rounding of the differences accepts wrong signs here.
+		odd := func(l string) float64 {
+			return float64(rapid.Int64Range(1<<51, 1<<52-1).Draw(t, l)*2 + 1)
+		}
+		a = [2]float64{odd("ax"), odd("ay")}
+		if rapid.Bool().Draw(t, "aneg") {
+			a[0] = -a[0]
+		}
+		mu := rapid.Float64Range(-0.45, 0.45).Draw(t, "mu")
+		b = [2]float64{a[0] + math.Round(mu*a[0]) + float64(rapid.IntRange(-3, 3).Draw(t, "jx")), a[1] + math.Round(mu*a[1]) + float64(rapid.IntRange(-3, 3).Draw(t, "jy"))}
+		half := func(l string) float64 {
+			v := rapid.SampledFrom([]float64{0.5, 0.5, 0.25, 0.75, 1.5}).Draw(t, l+"h")
+			v += rapid.SampledFrom([]float64{0, 0x1p-54, -0x1p-54, 0x1p-60, -0x1p-60, 0x1p-53, -0x1p-53}).Draw(t, l+"e")
+			if rapid.Bool().Draw(t, l+"s") {
+				v = -v
+			}
+			return v
+		}
+		c = [2]float64{half("cx"), half("cy")}
+		// the roles of the three points in the call are drawn too
+		switch rapid.IntRange(0, 2).Draw(t, "role") {
+		case 1:
+			a, c = c, a
+		case 2:
+			b, c = c, b
+		}
 	case "grid-big":
 		// integer-valued ordinates; widths at the limits of int32 / int64 / float64-mantissa
 		// arithmetic are drawn as often as all other widths together, and every ordinate
